@@ -149,15 +149,14 @@ def oracle(script: dict, run: Any) -> List[Violation]:
         really_failed = [e for e in h.kind("kick_fail") if e[4]["marker"] == sid]
         if really_failed and not good:
             # a one-shot whose send failed is still in its source (post_send never ran) and long due: the next poll that lists it
-            # sends it again - a failed send costs that attempt, it does not block the schedule
-            t_fail = really_failed[0][2]
-            nxt_poll = next((p for p in ps if p["wall"] is not None and p["wall"] > t_fail and sid in p["listed"].get(src, []) and p["wall"] < end - 2_500_000), None)
-            if nxt_poll is not None:
-                hi2 = nxt_poll["wall"] + 1_000_000 + SLACK_US + tol
-                if not any(nxt_poll["wall"] <= e[2] <= hi2 for e in ks):
-                    out.append(Violation("C15/one-shot-not-retried-after-failed-send", f"one-shot {sid}: its send at {from_us(t_fail).isoformat()} failed, the poll at "
-                                         f"{from_us(nxt_poll['wall']).isoformat()} listed it again (T={from_us(T).isoformat()} is past) but it was not sent", sid=sid))
-                    continue
+            # sends it again - a failed send costs that attempt, it does not block the schedule. Judged on event order: the first
+            # successful listing *after* the last failure that still contains the schedule must be followed by a send.
+            f_last = really_failed[-1]
+            nxt = next((x for x in h.kind("list_ok") if x[0] > f_last[0] and x[4]["source"] == src and sid in x[4]["ids"] and x[2] < end - 2_500_000), None)
+            if nxt is not None and not any(e[0] > f_last[0] for e in ks):
+                out.append(Violation("C15/one-shot-not-retried-after-failed-send", f"one-shot {sid}: its send failed at {from_us(f_last[2]).isoformat()}, the poll at "
+                                     f"{from_us(nxt[2]).isoformat()} listed it again (T={from_us(T).isoformat()} is past) but it was never sent again", sid=sid))
+                continue
         if len(good) > 1:
             sub = ""
             if sp.get("label"):
